@@ -27,7 +27,7 @@
 (* mode = "liberal": every statement may raise before it executes, any     *)
 (*   handler (or none) may catch, every loop may exit after any iteration. *)
 (***************************************************************************)
-EXTENDS Naturals, Sequences, FiniteSets, TLC
+EXTENDS Integers, Sequences, FiniteSets, TLC
 
 Vars == {"x", "y"}
 Unbound == 0
@@ -70,7 +70,9 @@ ExecStmt(s, envs, mode) ==
         assigned == {[e EXCEPT ![s.v] = s.id] : e \in envs}
     IN
     \* (liberal: an interrupted assignment may or may not have taken effect)
-    CASE s.k = "assign" -> Out(assigned, {}, {}, {}, IF MayRaiseAnywhere(mode) THEN envs \cup assigned ELSE {}, {})
+    \* (an assignment that is reached at all is recorded as <<0 - id, 0>>: the oracle's notion of live code)
+    CASE s.k = "assign" -> Out(assigned, {}, {}, {}, IF MayRaiseAnywhere(mode) THEN envs \cup assigned ELSE {},
+                               IF envs = {} THEN {} ELSE {<<0 - s.id, 0>>})
       [] s.k = "use"    -> Out(envs, {}, {}, {}, pre, {<<s.id, e[s.v]>> : e \in envs})
       [] s.k = "call"   -> Out(envs, {}, {}, {}, envs, {})
       [] s.k = "return" -> Out({}, {}, {}, envs, pre, {})
@@ -119,5 +121,7 @@ ExecStmt(s, envs, mode) ==
 \* Reaching definitions per use of a function body (every variable starts unbound)
 Env0 == [v \in Vars |-> Unbound]
 Reaching(prog, mode) == Exec(prog, {Env0}, mode).seen
+\* assignments that can execute at all (everything else is dead code)
+LiveDefs(pairs) == {0 - p[1] : p \in {q \in pairs : q[1] < 0}}
 ReachingAt(prog, mode, useid) == {p[2] : p \in {q \in Reaching(prog, mode) : q[1] = useid}}
 =============================================================================
